@@ -72,7 +72,9 @@ def mutations_xml(doc_bytes, step):
     for idx in range(n):
         for op in ('delete', 'dup', 'rename', 'text2elt', 'empty', 'nil', 'attr', 'move_up', 'nons', 'comment', 'pi',
                    # type markers naming types OF THE INTERFACE (an array wrapper, the class, the enumeration) and nothing
-                   'type:tns:integerArray', 'type:tns:CArray', 'type:tns:C', 'type:tns:Color', 'type:tns:nope', 'type:zz:C', 'type::'):
+                   'type:tns:integerArray', 'type:tns:CArray', 'type:tns:C', 'type:tns:Color', 'type:tns:nope', 'type:zz:C', 'type::',
+                   # plain attributes named like members of the class
+                   'pattr:s', 'pattr:i', 'pattr:arr', 'pattr:zz'):
             t2 = etree.fromstring(doc_bytes)
             e = list(t2.iter())[idx]
             p = e.getparent()
@@ -88,6 +90,7 @@ def mutations_xml(doc_bytes, step):
                 elif op == 'nil': e.set('{%s}nil' % XSI, 'true')
                 elif op == 'attr': e.set('{%s}type' % XSI, 'xs:string')
                 elif op.startswith('type:'): e.set('{%s}type' % XSI, op[5:])
+                elif op.startswith('pattr:'): e.set(op[6:], 'x')
                 elif op == 'comment': e.append(etree.Comment('c'))
                 elif op == 'pi': e.append(etree.ProcessingInstruction('p', 'q'))
                 elif op == 'move_up' and p is not None and p.getparent() is not None: p.getparent().append(e)
@@ -149,8 +152,9 @@ def fixed_random_bytes(n):
 
 
 class Family(object):
-    def __init__(self, name, mk_in, mk_out, ctype, wrap=None, dump=None, kind='xml', jreq=None):
+    def __init__(self, name, mk_in, mk_out, ctype, wrap=None, dump=None, kind='xml', jreq=None, out=None):
         self.name, self.mk_in, self.mk_out, self.ctype = name, mk_in, mk_out, ctype
+        self.out = out or name            # the family the answers are written in
         self.wrap, self.dump, self.kind = wrap, dump, kind
         self.jreq = jreq or globals()['jreq']
 
@@ -174,6 +178,10 @@ def families():
         Family('msgpack', MessagePackDocument, MessagePackDocument, 'application/x-msgpack',
                dump=lambda d: msgpack.packb({k.encode(): v for k, v in d.items()} if isinstance(d, dict) else d), kind='dict'),
         Family('http', HttpRpc, JsonDocument, None, kind='flat'),
+        # the answer (hence the fault, which quotes the offending text) travels in another family than the request
+        Family('http_xmlout', HttpRpc, XmlDocument, None, kind='flat', out='xml'),
+        Family('json_soapout', JsonDocument, Soap11, 'application/json', dump=lambda d: json.dumps(d).encode(), kind='dict', out='soap11'),
+        Family('yaml_httpout', YamlDocument, HttpRpc, 'text/yaml', dump=lambda d: yaml.safe_dump(d).encode(), kind='dict', out='httprpc'),
         # wrapper documents (ignore_wrappers=False)
         Family('json_w', lambda **kw: JsonDocument(ignore_wrappers=False, **kw), JsonDocument, 'application/json',
                dump=lambda d: json.dumps(d).encode(), kind='dict', jreq=jreq_w),
@@ -207,7 +215,14 @@ def corpus(fam, quick):
                              ('twobodies', '<e:Envelope xmlns:e="%s"><e:Body/><e:Body/></e:Envelope>' % ns),
                              ('textbody', '<e:Envelope xmlns:e="%s"><e:Body>text</e:Body></e:Envelope>' % ns),
                              ('wrongns', '<e:Envelope xmlns:e="urn:x"><e:Body/></e:Envelope>'),
-                             ('empty', ''), ('space', ' ')]:
+                             ('empty', ''), ('space', ' '),
+                             # multi-reference encoding: a reference to nothing, to itself, in a cycle; a Fault where the request should be
+                             ('href_unknown', '<e:Envelope xmlns:e="%s" xmlns:tns="tns"><e:Body><tns:f><tns:c href="#nope"/><tns:n>5</tns:n></tns:f><x id="other"/></e:Body></e:Envelope>' % ns),
+                             ('href_self', '<e:Envelope xmlns:e="%s" xmlns:tns="tns"><e:Body><tns:f><tns:c href="#a"/></tns:f><x id="a"><y href="#a"/></x></e:Body></e:Envelope>' % ns),
+                             ('href_cycle', '<e:Envelope xmlns:e="%s" xmlns:tns="tns"><e:Body><tns:f><tns:c href="#a"/></tns:f><x id="a"><y href="#b"/></x><x id="b"><y href="#a"/></x></e:Body></e:Envelope>' % ns),
+                             ('href_empty', '<e:Envelope xmlns:e="%s" xmlns:tns="tns"><e:Body><tns:f><tns:c href=""/></tns:f></e:Body></e:Envelope>' % ns),
+                             ('fault_as_request', '<e:Envelope xmlns:e="%s"><e:Body><e:Fault><faultcode>e:Client</faultcode><faultstring>x</faultstring></e:Fault></e:Body></e:Envelope>' % ns),
+                             ('doctype_entity', '<!DOCTYPE e:Envelope [<!ENTITY a "b">]><e:Envelope xmlns:e="%s" xmlns:tns="tns"><e:Body><tns:f><tns:n>&a;</tns:n></tns:f></e:Body></e:Envelope>' % ns)]:
                 out.append((label, {}, b.encode()))
     elif fam.kind == 'dict':
         for k in VAL:
@@ -243,27 +258,65 @@ def corpus(fam, quick):
     if fam.kind != 'flat':
         for i, b in enumerate(fixed_random_bytes(300 if quick else 2000)):
             out.append(('rand%d' % i, {}, b))
+        # what the transport announces about the body
+        good = fam.wrap(xml_req(VAL)).encode() if fam.kind == 'xml' else fam.dump(fam.jreq(VAL))
+        for cs in ('bogus', '', 'utf-16', 'ascii', 'utf-8; x=y', '"utf-8"', 'utf-8 ', 'idna', 'rot13', 'hex', 'undefined'):
+            out.append(('charset=%s' % cs, {'CONTENT_TYPE': '%s; charset=%s' % (fam.ctype, cs)}, good))
+        for ln in ('x', '', '-1', '1e3', ' 5', '99999999999999999999999'):
+            out.append(('content-length=%r' % ln, {'CONTENT_LENGTH': ln}, good))
+        for ct in ('', 'zz', 'multipart/related', 'multipart/related; boundary=x', 'text/xml;;;', ';'):
+            out.append(('content-type=%r' % ct, {'CONTENT_TYPE': ct}, good))
+        # nesting beyond any interpreter stack
+        for n in (1000, 100000):
+            if n > 1000 and fam.name.startswith('yaml'):
+                continue          # (libyaml's C composer recurses on the C stack: the PROCESS dies of a segmentation fault - see DESIGN)
+            if fam.kind == 'dict' and fam.name.startswith(('json', 'yaml')):
+                out.append(('deep[%d' % n, {}, b'[' * n))
+                out.append(('deep{%d' % n, {}, b'{"f":' * n))
+            if fam.kind == 'dict' and fam.name.startswith('msgpack'):
+                out.append(('deep[%d' % n, {}, b'\x91' * n))
+                out.append(('deep{%d' % n, {}, b'\x81\xa1f' * n))
+        if fam.kind == 'dict' and fam.name.startswith('msgpack'):
+            import msgpack
+            out.append(('badutf8 method key', {}, msgpack.packb({b'\xff\xfe': {}}, use_bin_type=True)))
+            out.append(('badutf8 str method key', {}, b'\x81\xa2\xff\xfe\x80'))
+            d = fam.jreq(VAL); c = d['f']['c'].get('C', d['f']['c']); c['s'] = b'\xff\xfe'
+            out.append(('badutf8 bin text', {}, msgpack.packb(d, use_bin_type=True)))
+    # texts that survive parsing and break the fault's way out
+    if fam.kind in ('dict', 'flat'):
+        for h in ('P\x01', '\x00', '\ud800', 'P1\x7fD'):
+            v = dict(VAL); v['du'] = h
+            try:
+                if fam.kind == 'dict':
+                    out.append(('ctl du=%r' % h, {}, fam.dump(fam.jreq(v))))
+                else:
+                    out.append(('ctl du=%r' % h, {'REQUEST_METHOD': 'GET', 'PATH_INFO': '/f', 'QUERY_STRING': 'c.du=' + quote(h, errors='surrogatepass')}, b''))
+            except Exception:
+                pass
     return out
 
 
 def fault_doc(fam, body):
     """-> (is a well-formed fault document of the output family, code segments)"""
     try:
-        if fam.name in ('xml', 'soap11', 'soap12'):
+        if fam.out in ('xml', 'soap11', 'soap12'):
             from lxml import etree
             root = etree.fromstring(body)
             fe = [e for e in root.iter() if isinstance(e.tag, str) and etree.QName(e).localname == 'Fault'][0]
             kids = {etree.QName(c).localname: c for c in fe if isinstance(c.tag, str)}
-            if fam.name == 'soap12':
+            if fam.out == 'soap12':
                 vals = [e.text for e in kids['Code'].iter() if etree.QName(e).localname == 'Value']
                 head = {'Sender': 'Client', 'Receiver': 'Server'}.get(vals[0].split(':')[-1], '?')
                 return True, [head] + vals[1:]
             code = kids['faultcode'].text
             kids['faultstring']
             return True, (code.split(':', 1)[1] if ':' in code else code).split('.')
-        if fam.name in ('json', 'http', 'json_w'):
+        if fam.out == 'httprpc':
+            code, sep, msg = body.decode('utf8').partition('\n\n')
+            return bool(sep), code.split('.')
+        if fam.out in ('json', 'http', 'json_w'):
             doc = json.loads(body.decode('utf8'))
-        elif fam.name in ('yaml', 'yaml_w'):
+        elif fam.out in ('yaml', 'yaml_w'):
             import yaml
             doc = yaml.safe_load(body.decode('utf8'))
         else:
@@ -364,13 +417,13 @@ def run(ctx):
                         log[0:0] = [['app', 'method_call']] + [['fn', 'call']] * len(RAN)
                     escaped = any(x[0] == 'escape' for x in log)
                     if tr == 'wsgi':
-                        isfault = status[0] >= 400 or (fam.name.startswith('soap') and status[0] == 500)
+                        isfault = status[0] >= 400 or (fam.out.startswith('soap') and status[0] == 500)
                     else:
                         isfault = err is not None
                     ok, code = (True, [])
                     if isfault and not escaped:
                         ok, code = fault_doc(fam, out)
-                    k = {'tr': tr, 'rpc': True, 'soap': fam.name.startswith('soap'), 'done': not escaped,
+                    k = {'tr': tr, 'rpc': True, 'soap': fam.out.startswith('soap'), 'done': not escaped,
                          'fault': bool(isfault), 'code': code if isfault else [], 'status': status[0], 'faultDocOk': ok,
                          'mayEscape': False}
                     recs.append({'obs': log, 'k': k})
